@@ -80,6 +80,7 @@ func TestVerifC03ObfsSalamander(t *testing.T) {
 		t.Fatal(err)
 	}
 	peer, _ := newSalamanderObfuscator(vfC03PSK)
+	peer.RandSrc = k.Rand("peer-salts") // deterministic salts
 	r.Entry(entryD, func(b []byte) {
 		for _, ol := range []int{len(b) - smSaltLen, len(b) - smSaltLen - 1, 0, 1, len(b), udpBufferSize} {
 			if ol < 0 {
@@ -300,6 +301,7 @@ func TestVerifC03ObfsGecko(t *testing.T) {
 		fake := &vfC03PConn{}
 		var conn net.PacketConn
 		peer, _ := newSalamanderObfuscator(vfC03PSK)
+		peer.RandSrc = k.Rand("peer-salts-" + id) // deterministic salts
 		if fullStack {
 			var err error
 			conn, err = WrapPacketConnGecko(fake, GeckoOptions{Password: vfC03PSK})
